@@ -42,6 +42,7 @@ def run(ctx):
     algorithm_tables(ctx, P)
     from rules import tables
     tables.bit_counts_round_up(ctx, P)
+    derived_key_sized_by_the_cipher_in_use(ctx, P)
     from rules.tables import rfc_id_tables
     rfc_id_tables(ctx, P, only=r'SymmetricKeyAlgorithm|AeadAlgorithm|HashAlgorithm|PublicKeyAlgorithm')
     secret_key_aead(ctx, P)
@@ -361,3 +362,25 @@ def ecdh(ctx, P):
     users = sorted(p for p, r in ctx.f.bodies.items() if ctx.wrap(r).calls(r'crypto::ecdh::(kdf|build_ecdh_param)$') and 'ecdh' in p)
     ctx.check(P + ':ecdh:single-derivation', 'R-who', 'ECDH encryption and decryption derive the KEK through the same build_ecdh_param + kdf',
               any(u.endswith('derive_session_key') for u in users) and any(u.endswith('encrypt') for u in users), table=users)
+
+
+def derived_key_sized_by_the_cipher_in_use(ctx, P):
+    """Every password-derived key (S2K output) is as long as the key of the cipher that is named next to it - for secret-key
+    protection the `sym_alg` of the very S2kParams variant, for SKESK the packet's cipher - on the locking AND on the unlocking side.
+    The length handed to `StringToKey::derive_key` derives from `key_size()` of that cipher, never from a constant algorithm."""
+    n = 0
+    for p, r in sorted(ctx.f.bodies.items()):
+        if '::tests::' in p:
+            continue
+        b = ctx.wrap(r)
+        for k, (i, t) in enumerate(b.calls(r'StringToKey::derive_key$')):
+            if len(t['args']) < 3:
+                continue
+            n += 1
+            og = b.operand_origins(t['args'][2])
+            const_alg = sorted(x for x in og if re.match(r'agg:crypto::sym::SymmetricKeyAlgorithm::', x))
+            ok = has_origin(og, r'call:.*SymmetricKeyAlgorithm::key_size$') and not const_alg
+            ctx.check('%s:s2k:derived-length-from-cipher:%s#%d' % (P, p, k), 'origin', 'the length of the key derived in %s is key_size() of the cipher in use' % '::'.join(p.split('::')[-2:]),
+                      ok, function=p, site=site(b, i),
+                      missing=None if ok else 'the requested length derives from %s: the other side derives key_size() of the cipher in use, so keys for any other cipher differ' % (const_alg or 'something else than key_size()'))
+    ctx.floor(P + ':s2k:derived-length:floor', 'derive_key call sites', n, 8)
